@@ -474,3 +474,20 @@ PROPS['C15']['explanation'] = ('SEQUENTIAL ACCOUNTING CHAIN. Verus: every hit of
 # C17: the configuration builder's setters under their documented preconditions (unit `config`, rules T3 + T14)
 PROPS['C17']['verus'] = PROPS['C17']['verus'] + ['config']
 PROPS['C17']['assumptions'] = PROPS['C17']['assumptions'] + ['T14: `fn f(mut self, ..)` is verified as `fn f(self, ..) { let mut verif_self = self; .. }`; the boxed client closures and the clock are opaque values in unit `config`; usize::is_power_of_two is an uninterpreted predicate']
+
+# with ONE resident two of the six reachability covers of t_maybe_add cannot be hit (no second victim; evicting the only resident always frees enough for a key that fits the cache)
+PROPS['C06']['kani_meta']['ap/maybe_add_n1'] = dict(PROPS['C06']['kani_meta'].get('ap/maybe_add_n1', {}), min_covers=4)
+
+# unit `store`: the straight-line Store functions for maps of any size, against an assumed DashMap contract (in addition to the Kani triples with N entries)
+STORE_ASSUME = ['dashmap::DashMap (ASSUMED contract of the dependency, unit `store`): insert / remove / get / clear act on the key -> value map as on a mathematical map; T6 ghost World']
+for _p, _only in (('C03', [r'Store::put$', r'Store::put_with_ttl$', r'Store::delete$']), ('C04', [r'Store::delete$']),
+                  ('C05', [r'Store::put$', r'Store::put_with_ttl$', r'Store::delete$', r'Store::is_present$']),
+                  ('C07', [r'Store::is_present$', r'Store::put$', r'Store::put_with_ttl$']),
+                  ('C16', [r'Store::put$', r'Store::put_with_ttl$', r'Store::delete$']),
+                  ('C17', None)):
+    PROPS[_p]['verus'] = PROPS[_p]['verus'] + ['store']
+    if _only is not None:
+        PROPS[_p].setdefault('verus_only', {})['store'] = _only
+    PROPS[_p]['assumptions'] = PROPS[_p]['assumptions'] + STORE_ASSUME
+# C17 collects the panic-freedom obligations of every unit
+PROPS['C17']['verus'] = PROPS['C17']['verus'] + [u for u in ('sampler', 'pool') if u not in PROPS['C17']['verus']]
